@@ -21,6 +21,7 @@
 """
 import itertools
 import os
+import threading
 import random
 import re
 from concurrent.futures import ThreadPoolExecutor
@@ -41,6 +42,14 @@ META = {
 K = 8            # patterns per link (one object file per pattern)
 WILD_FLAGS = ["--threads=2", "--no-fork"]
 MARK_RE = re.compile(rb"<MK:([^:]+):([^>]*?):KM>")
+
+
+_LOCK = threading.Lock()
+
+
+def bump(dct, key, n=1):
+    with _LOCK:
+        dct[key] = dct.get(key, 0) + n
 
 
 def wild_bin():
@@ -163,11 +172,11 @@ def run_match(ctx, cov, d, cases, meta, rng, workers):
         cs = [c for c in cases if c["short"] == short]
         batches += [cs[i:i + K] for i in range(0, len(cs), K)]
     stats = {"patterns": len(cases), "names": len(names), "pairs_vs_ld": 0, "pairs_vs_wild": 0,
-             "ld_quirk_patterns": 0, "wild_links": 0, "panicking_batches_not_attributed": 0}
+             "ld_quirk_patterns": 0, "wild_links": 0, "panicking_batches_not_attributed": 0, "ld_overlap_quirk_pairs": 0}
     quirks = []
     findings = {}     # key -> list of (description, replay files)
     samples = []
-    single_budget = [24 if ctx.quick else 400]
+    stride = 4 if ctx.quick else 1     # failing batch links are attributed pattern by pattern in every stride-th batch
 
     def record(key, text, files, meta_):
         findings.setdefault(key, []).append((text, files, meta_))
@@ -209,14 +218,14 @@ def run_match(ctx, cov, d, cases, meta, rng, workers):
                 excluded.add((t, n))
             else:
                 raise ToolError(f"spec disagrees with GNU ld on pattern `{c['text']}` (spec error): {(t, n, e, o)}")
-        stats["ld_overlap_quirk_pairs"] = stats.get("ld_overlap_quirk_pairs", 0) + len(excluded)
+        bump(stats, "ld_overlap_quirk_pairs", len(excluded))
         for t, n in excluded:
             del exp[(t, n)]
         live = [k for k in range(len(batch)) if str(k) not in bad_tags]
-        stats["pairs_vs_ld"] += len(live) * len(names)
+        bump(stats, "pairs_vs_ld", len(live) * len(names))
         # wild
         w = link("wild", sub, ob, script, sub / "out.wild", ["--no-gc-sections"])
-        stats["wild_links"] += 1
+        bump(stats, "wild_links", 1)
         if w.rc == 0 and not w.timed_out:
             wobs = observe(sub / "out.wild")
             for t, n, e, o in diff_obs(exp, wobs):
@@ -228,22 +237,21 @@ def run_match(ctx, cov, d, cases, meta, rng, workers):
                             "a.s": f'.globl _start\n.text\n_start:\n{asm.EXIT_X86}\n.section "{n}","a",@progbits\n .ascii "{asm.marker(n)}"\n'},
                            {"cmd": "as --64 -o a.o a.s; wild a.o -T s.ld -o out --no-gc-sections; readelf -SW out",
                             "pattern": c["text"], "section": n, "expected": e, "observed": o})
-            stats["pairs_vs_wild"] += len(live) * len(names)
+            bump(stats, "pairs_vs_wild", len(live) * len(names))
             if len(samples) < 3:
                 c = batch[live[0]] if live else batch[0]
                 samples.append({"pattern": c["text"], "matches": c["m"][:6], "n_names": len(names), "wild": "as spec/ld" if not diff_obs(exp, wobs) else "differs"})
             return
         # the whole link failed: attribute by linking each pattern alone (budgeted)
         for k in live:
-            if single_budget[0] <= 0:
-                stats["panicking_batches_not_attributed"] += 1
+            if i % stride != 0:
+                bump(stats, "panicking_batches_not_attributed", 1)
                 continue
-            single_budget[0] -= 1
             c = batch[k]
             s1 = sub / f"s{k}.ld"
             s1.write_text(match_script([c]))
             w1 = link("wild", sub, [sub / "f0.o"], s1, sub / f"out{k}.wild", ["--no-gc-sections"])
-            stats["wild_links"] += 1
+            bump(stats, "wild_links", 1)
             files = {"s.ld": f"SECTIONS {{ .o0 : {{ *({c['text']}) }} }}\n",
                      "a.s": f".globl _start\n.text\n_start:\n{asm.EXIT_X86}\n"}
             cmd = "as --64 -o a.o a.s; wild a.o -T s.ld -o out"
@@ -253,7 +261,7 @@ def run_match(ctx, cov, d, cases, meta, rng, workers):
                     record(classify(c, n, e, o),
                            f"pattern `{c['text']}`, section `{n}`: spec and GNU ld place it in {e}, wild in {o}",
                            files, {"cmd": cmd, "pattern": c["text"], "section": n, "expected": e, "observed": o})
-                stats["pairs_vs_wild"] += len(names)
+                bump(stats, "pairs_vs_wild", len(names))
             elif w1.klass() == "panic":
                 record(panic_key(w1.err), f"valid pattern `{c['text']}` makes wild panic: {w1.err.strip().splitlines()[1][:120] if len(w1.err.strip().splitlines()) > 1 else ''}",
                        files, {"cmd": cmd, "pattern": c["text"], "expected": "link succeeds (GNU ld does)", "observed": w1.err[:400]})
@@ -320,7 +328,7 @@ def run_place(ctx, cov, d, cases, meta, rng, workers):
         bad = diff_obs(exp, observe(sub / "out.ld"))
         if bad:
             raise ToolError(f"spec (Place) disagrees with GNU ld on {script.read_text()}: {bad[:3]}")
-        stats["placements_vs_ld"] += len(exp)
+        bump(stats, "placements_vs_ld", len(exp))
         w = link("wild", sub, ob, script, sub / "out.wild", ["--no-gc-sections"])
         if w.rc != 0 or w.timed_out:
             if w.klass() == "panic":
@@ -347,7 +355,7 @@ def run_place(ctx, cov, d, cases, meta, rng, workers):
                 key = f"misplaced:{'|'.join(p for r_ in c['rules'] for p in r_['pats'])}"
             record(key, f"{f}({s}) under {place_script(c).strip()!r}: spec and GNU ld -> {e}, wild -> {o}", files,
                    {"cmd": cmd + "; readelf -SW out", "file": f, "section": s, "expected": e, "observed": o})
-        stats["placements_vs_wild"] += len(exp)
+        bump(stats, "placements_vs_wild", len(exp))
         if len(samples) < 2:
             samples.append({"script": place_script(c), "expected": {f"{f}({s})": e for (f, s), e in list(exp.items())[:5]}})
         # KEEP under --gc-sections: nothing references the sections
@@ -364,7 +372,7 @@ def run_place(ctx, cov, d, cases, meta, rng, workers):
             for f, s in kept:
                 if wobs.get((f, s)) != exp[(f, s)]:
                     continue        # already reported as a placement deviation
-                stats["keep_checked"] += 1
+                bump(stats, "keep_checked", 1)
                 if (f, s) not in gobs:
                     record("keep-collected", f"{f}({s}) matched by KEEP in {place_script(c).strip()!r} was garbage-collected",
                            files, {"cmd": cmd.replace("--no-gc-sections", "--gc-sections"), "file": f, "section": s,
@@ -386,7 +394,7 @@ def run_place(ctx, cov, d, cases, meta, rng, workers):
 def run(ctx):
     cov = {"samples": []}
     rng = random.Random(ctx.seed)
-    workers = 4 if ctx.quick else 8
+    workers = 8
     spec = run_specs(ctx, cov)
     wild_bin()
     log(f"C15: {len(spec['match'])} patterns, {len(spec['place'])} rule lists")
